@@ -292,17 +292,26 @@ func (p *grpcConnectionPool) newConnection(ctx context.Context, target *route.Ta
 	conn, err := grpc.DialContext(ctx, target.URL.Host, opts...)
 
 	if err == nil {
-		p.Set(target, conn)
+		conn = p.Set(target, conn)
 	}
 
 	return conn, err
 }
 
-func (p *grpcConnectionPool) Set(target *route.Target, conn *grpc.ClientConn) {
+// Set adds the connection for the target to the pool and returns the
+// connection to use. If another call has added a usable connection for
+// the same target in the meantime then that one is kept and conn is closed.
+func (p *grpcConnectionPool) Set(target *route.Target, conn *grpc.ClientConn) *grpc.ClientConn {
 	p.lock.Lock()
 	defer p.lock.Unlock()
 
-	p.connections[makeGRPCTargetKey(target)] = conn
+	key := makeGRPCTargetKey(target)
+	if cur := p.connections[key]; cur != nil && cur != conn && cur.GetState() != connectivity.Shutdown {
+		conn.Close()
+		return cur
+	}
+	p.connections[key] = conn
+	return conn
 }
 
 func (p *grpcConnectionPool) cleanup() {
